@@ -1,7 +1,134 @@
 package main
 
-import "govc/eng"
+import (
+	"bytes"
+	"encoding/json"
+	"fmt"
+	"os"
+	"os/exec"
+	"path/filepath"
+	"regexp"
+	"sort"
+	"strings"
 
-func replayGeneric(ob *eng.Obligation, res *checkResult, o checkOpts) *replayResult { return nil }
+	"govc/eng"
+)
 
-func rerunTest(src, fn string) (string, bool) { return "", false }
+var rePlaceholder = regexp.MustCompile(`\{\{([A-Za-z0-9_.\[\]]+)\}\}`)
+
+// replayGeneric instantiates the replay template named by the contract with
+// the solver's model and runs it against the real code with
+// "go test -overlay" (nothing is written under the repository).
+func replayGeneric(ob *eng.Obligation, res *checkResult, o checkOpts) *replayResult {
+	if ob.ReplayTemplate == "" || len(ob.ModelValues) == 0 {
+		return nil
+	}
+	tmplPath := filepath.Join(o.verif, "replay", ob.ReplayTemplate+".go.tmpl")
+	tmpl, err := os.ReadFile(tmplPath)
+	if err != nil {
+		return &replayResult{Why: "no replay template " + tmplPath}
+	}
+	// arrays: names of the form base[k]
+	arrays := map[string]map[int]string{}
+	scalars := map[string]string{}
+	for n, v := range ob.ModelValues {
+		if k := strings.Index(n, "["); k >= 0 {
+			var idx int
+			fmt.Sscanf(n[k+1:], "%d", &idx)
+			if arrays[n[:k]] == nil {
+				arrays[n[:k]] = map[int]string{}
+			}
+			arrays[n[:k]][idx] = v
+		} else {
+			scalars[n] = v
+		}
+	}
+	label := ob.Label
+	if k := strings.Index(label, "@"); k >= 0 {
+		label = label[:k]
+	}
+	var inputs []string
+	src := rePlaceholder.ReplaceAllStringFunc(string(tmpl), func(m string) string {
+		name := m[2 : len(m)-2]
+		switch name {
+		case "kind":
+			return ob.Kind
+		case "label":
+			return label
+		case "obligation":
+			return ob.Name
+		}
+		if a, ok := arrays[name]; ok {
+			var idx []int
+			for k := range a {
+				idx = append(idx, k)
+			}
+			sort.Ints(idx)
+			var parts []string
+			for _, k := range idx {
+				parts = append(parts, a[k])
+			}
+			return strings.Join(parts, ", ")
+		}
+		if v, ok := scalars[name]; ok {
+			return v
+		}
+		return "0"
+	})
+	for n, a := range arrays {
+		var idx []int
+		for k := range a {
+			idx = append(idx, k)
+		}
+		sort.Ints(idx)
+		var parts []string
+		for _, k := range idx {
+			parts = append(parts, a[k])
+		}
+		inputs = append(inputs, fmt.Sprintf("%s=[%s]", n, strings.Join(parts, " ")))
+	}
+	for n, v := range scalars {
+		inputs = append(inputs, n+"="+v)
+	}
+	sort.Strings(inputs)
+	out, ok := rerunTestIn(src, ob.Func, o.repo)
+	return &replayResult{Confirmed: ok, Test: src, Output: out, Inputs: strings.Join(inputs, " ")}
+}
+
+func pkgDirOfFunc(fn string) string {
+	// "github.com/jech/storrent/protocol.Read" / "github.com/jech/storrent/tor/piece.(*Pieces).ReadAt"
+	fn = strings.TrimPrefix(fn, eng.ModPath)
+	fn = strings.TrimPrefix(fn, "/")
+	if k := strings.Index(fn, ".("); k >= 0 {
+		return fn[:k]
+	}
+	if k := strings.LastIndex(fn, "."); k >= 0 {
+		return fn[:k]
+	}
+	return ""
+}
+
+func rerunTest(src, fn string) (string, bool) { return rerunTestIn(src, fn, "/repo") }
+
+func rerunTestIn(src, fn, repo string) (string, bool) {
+	dir, err := os.MkdirTemp("", "govc-replay")
+	if err != nil {
+		return err.Error(), false
+	}
+	defer os.RemoveAll(dir)
+	testFile := filepath.Join(dir, "zz_replay_test.go")
+	os.WriteFile(testFile, []byte(src), 0o644)
+	pkgDir := pkgDirOfFunc(fn)
+	ov := map[string]map[string]string{"Replace": {filepath.Join(repo, pkgDir, "zz_replay_test.go"): testFile}}
+	ovData, _ := json.Marshal(ov)
+	ovFile := filepath.Join(dir, "overlay.json")
+	os.WriteFile(ovFile, ovData, 0o644)
+	cmd := exec.Command("bash", "-c", fmt.Sprintf("ulimit -v 8000000; cd %s && go test -overlay %s -vet=off -count=1 -timeout 60s -v -run 'TestGovcReplay' ./%s 2>&1 | tail -40", repo, ovFile, pkgDir))
+	cmd.Env = append(os.Environ(), "GOFLAGS=-mod=mod", "GOPROXY=off", "GOSUMDB=off", "GOTOOLCHAIN=local")
+	var out bytes.Buffer
+	cmd.Stdout = &out
+	cmd.Stderr = &out
+	cmd.Run()
+	o := out.String()
+	return o, strings.Contains(o, "REPLAY-CONFIRMED")
+}
